@@ -281,8 +281,12 @@ func (li *Listener) Close() error {
 	li.doneOnce.Do(func() {
 		close(li.doneChan)
 	})
+	// Close the QUIC listener before the packet socket under it. The other way round, the transport's read
+	// loop notices the dead socket and shuts the listener down from its side while ql.Close() does the same
+	// from ours, and the two take the transport mutex and the listener's close-once in opposite orders.
+	qerr := li.ql.Close()
 	perr := li.pc.Close()
-	if qerr := li.ql.Close(); qerr != nil {
+	if qerr != nil {
 		return qerr
 	}
 
